@@ -167,7 +167,7 @@ def replay(log_paths, layers):
     cat.wait()
     rejects, cov, summary = [], {}, {}
     for line in r.stdout.splitlines():
-        if line.startswith("REJECT"):
+        if line.startswith("REJECT") or line.startswith("ORACLE"):
             rejects.append(line)
         elif line.startswith("COV "):
             _, k, n = line.split(" ")
